@@ -27,7 +27,19 @@ def head_args(t):
     if t.startswith("["):
         inner = t[1:-1]
         return "slice", [split_top(inner, ";")[0]]
-    if t.startswith("<") or t.startswith("dyn ") or t.startswith("impl ") or t.startswith("{") or t.startswith("fn(") or t.startswith("for<"):
+    if t.startswith("dyn ") or t.startswith("for<") or t.startswith("fn(") or re.match(r"(std::ops::)?Fn(Mut|Once)?\(", t):
+        u = t[4:] if t.startswith("dyn ") else t
+        if u.startswith("for<"):
+            u = u[match_close(u, 3) + 1:].strip()
+        m = re.match(r"(?:[\w:]*::)?(Fn|FnMut|FnOnce|fn)\(", u)
+        if m:
+            k = match_close(u, m.end() - 1)
+            args = [a for a in split_top(u[m.end():k])]
+            rest = u[k + 1:].strip()
+            ret = rest[2:].strip() if rest.startswith("->") else "()"
+            return "dyn" + m.group(1), args + [ret]
+        return t, []
+    if t.startswith("<") or t.startswith("impl ") or t.startswith("{"):
         return t, []
     depth = 0
     for i, c in enumerate(t):
